@@ -43,6 +43,7 @@ def gen_schema(rng, force_kind=None):
                  'a': {'ent': ea, 'coll': False, 'req': rng.random() < 0.4, 'opt_casc': None},
                  'b': {'ent': eb, 'coll': True, 'req': False, 'opt_casc': rng.choice([None, None, None, True, False])},
                  'ckey': rng.random() < 0.3}      # composite_key(reference, tag) on the entity of the reference
+            if rng.random() < 0.25: r['a']['lazy'] = True
             if r['a']['req'] and ea not in pk_ents and rng.random() < 0.4:
                 r['pk'] = True; r['ckey'] = False; pk_ents.add(ea)     # PrimaryKey(reference, tag): the reference is part of the primary key
             if rng.random() < 0.5: r['a'], r['b'] = r['b'], r['a']     # collection side may come first in declaration order
@@ -77,6 +78,7 @@ class World:
                 cls = Set if d['coll'] else (Required if d['req'] else Optional)
                 kw = {'reverse': rname}
                 if d['opt_casc'] is not None: kw['cascade_delete'] = d['opt_casc']
+                if d.get('lazy') and not d['coll']: kw['lazy'] = True          # lazy reference: loaded on first read only
                 attr = cls('E%d' % other['ent'], **kw)        # attributes are created in declaration order (attr.id)
                 dicts[d['ent']][name] = attr
                 self.attrs[(i, sn == 'b')] = attr
@@ -1148,17 +1150,19 @@ def directed_membership_phase(ctx, rng, n):
     end iteration must agree as well"""
     reqs, cases = [], []
     for _ in range(n):
-        kind = rng.choice(['m2m', 'm2m', 'symm', 'm2o'])
+        kind = rng.choice(['m2m', 'm2m', 'symm', 'm2o', 'm2o'])
         if kind == 'm2m': rel = {'kind': 'm2m', 'sym': False, 'a': S(0, coll=True), 'b': S(1, coll=True)}
         elif kind == 'symm': rel = {'kind': 'symm', 'sym': True, 'a': S(0, coll=True)}
-        else: rel = {'kind': 'm2o', 'sym': False, 'a': S(0, coll=True, casc=False), 'b': S(1)}
+        else:
+            rel = {'kind': 'm2o', 'sym': False, 'a': S(0, coll=True, casc=False), 'b': S(1)}
+            if rng.random() < 0.6: rel['b']['lazy'] = True      # the reference is lazy: a fresh session has not read it
         schema = {'nent': 1 if kind == 'symm' else 2, 'rels': [rel]}
         e1 = 0 if kind == 'symm' else 1
         w = World(schema)
-        na, nb = rng.choice([2, 3]), rng.choice([2, 3])
+        na, nb = rng.choice([2, 3]), rng.choice([2, 3, 4] if kind == 'm2o' else [2, 3])
         ops = [{'k': 'create', 'e': 0, 'vals': [], 'tag': 0} for _ in range(na)] + [{'k': 'create', 'e': e1, 'vals': [], 'tag': 0} for _ in range(nb)]
         A, B = list(range(na)), list(range(na, na + nb))
-        for _ in range(rng.choice([0, 1, 2, 3])):
+        for _ in range(rng.choice([0, 1, 2, 3] if kind != 'm2o' else [2, 3, 4, 5])):
             ops.append({'k': 'add', 'o': rng.choice(A), 'a': [0, False], 'items': [rng.choice(B)], 'via': 'single'})
         with db_session:
             errs = [w.apply(op) for op in ops]
@@ -1192,9 +1196,52 @@ def directed_membership_phase(ctx, rng, n):
         with db_session:
             w.objs = LazyObjs(w, classes, list(pks))
             try:
-                for step in range(rng.choice([3, 5, 7])):
+                if rng.random() < 0.6:
+                    for _x in w.objs: pass        # all objects are in the session before anything is read (their collections / lazy references are not)
+                    ctx.count('membership:all-objects-fetched-first')
+                if kind == 'm2o' and rng.random() < 0.6:
+                    # a reference reassigned BEFORE it was ever read in this session (it may be lazy), while the old owner's collection
+                    # is partially known (the reference of a sibling was read); then a call on the old owner's collection
+                    owner = {}
+                    for x in ops:
+                        if x['k'] == 'add': owner[x['items'][0]] = x['o']
+                    sib = [(i1, i2) for i1 in B for i2 in B if i1 != i2 and owner.get(i1) is not None and owner.get(i1) == owner.get(i2)]
+                    if sib:
+                        i1, i2 = rng.choice(sib); o1 = owner[i1]
+                        o2 = rng.choice([x for x in A if x != o1])
+                        v = getattr(w.objs[i2], w.names[rkey])
+                        obs.append((0, i2, list(rkey), -1 if v is None else w.idx(v), True))
+                        seq = [{'k': 'setRef', 'o': i1, 'a': list(rkey), 'v': rng.choice([o2, o2, None])}]
+                        free = [x for x in B if owner.get(x) != o1]
+                        # add() of an item whose own reference is unread makes the collection load itself completely inside the call
+                        addop = {'k': 'add', 'o': o1, 'a': [0, False], 'items': [rng.choice(free)] if free else [], 'via': rng.choice(['single', 'list', 'iadd'])}
+                        seq.append(rng.choice([addop, addop, addop, {'k': 'remove', 'o': o1, 'a': [0, False], 'items': [i2], 'via': 'single'},
+                                               {'k': 'create', 'e': e1, 'vals': [[list(rkey), {'ref': o1}]], 'tag': 0}]))
+                        for op in seq:
+                            err = w.apply(op)
+                            ctx.count('membership:%s:unread-reassign:%s:%s' % (kind + ('+lazy' if rel['b'].get('lazy') else ''), op['k'], err or 'ok'))
+                            if err is not None:
+                                ctx.divergence('a call of the membership phase failed', dict(hist, commit_reload_then=list(more) + [op]), impl=err); good = False; break
+                            more.append(op)
+                            if op['k'] == 'create': B.append(len(w.objs) - 1)
+                        if good:
+                            n1 = len(getattr(w.objs[o1], w.names[(0, False)]))          # len() as an observation of the old owner's end
+                            obs.append((len(more), o1, [0, False], -2, n1))
+                            good = both(o1, i1, 'unread reassign') and both(o2, i1, 'unread reassign')
+                            if good:      # iteration over the old owner's collection against the references of its members
+                                for y in getattr(w.objs[o1], w.names[(0, False)]).copy():
+                                    if getattr(y, w.names[rkey]) is not w.objs[o1]:
+                                        ctx.violation('an item sits in the collection of an owner it does not reference (reference reassigned before it was read in this session)',
+                                                      dict(hist, commit_reload_then=list(more)), observed={'owner': o1, 'item': w.idx(y), 'item.ref': w.idx(getattr(y, w.names[rkey])) if getattr(y, w.names[rkey]) is not None else None},
+                                                      key='unread-reference-reassigned:item-in-two-collections:%s' % ('lazy' if rel['b'].get('lazy') else 'eager'))
+                                        good = False; break
+                for step in (range(rng.choice([3, 5, 7])) if good else []):
                     pa, pb = rng.choice(A), rng.choice(B)
-                    if rng.random() < 0.6:
+                    if kind == 'm2o' and rng.random() < 0.5:
+                        po = rng.choice([x for x in B if x != pb] or B)
+                        v = getattr(w.objs[po], w.names[rkey])               # reads one reference: its owner's collection becomes partially known
+                        obs.append((len(more), po, list(rkey), -1 if v is None else w.idx(v), True))
+                    elif rng.random() < 0.6:
                         if rng.random() < 0.5: obs.append((len(more), pa, [0, False], pb, member(pa, (0, False), pb)))      # one end only: may record `absent`
                         elif not both(pa, pb, 'probe'): good = False; break
                     r = rng.random()
@@ -1241,9 +1288,10 @@ def directed_membership_phase(ctx, rng, n):
             ctx.divergence('driver error', hist, model=out); continue
         for (k, p_, key, q_, ans) in obs:
             objs = steps[base + k - 1]['objs']
-            exp = q_ in held(norm_dump(objs)[p_], (key[0], bool(key[1])))
+            hv = held(norm_dump(objs)[p_], (key[0], bool(key[1])))
+            exp = len(hv) if q_ == -2 else ((hv == []) if q_ < 0 else (q_ in hv))
             if exp != ans:
-                ctx.violation('a membership test on a partially loaded collection gives the wrong answer', dict(hist, commit_reload_then=more[:k]),
+                ctx.violation('a membership test / len() / reference read on partially loaded data gives the wrong answer', dict(hist, commit_reload_then=more[:k]),
                               observed={'p': p_, 'attr': key, 'q': q_, 'in': ans}, expected=exp, key='in-wrong:%s' % hist['schema']['rels'][0]['kind']); break
         else:
             md = [x for x in norm_dump(steps[-1]['objs']) if x['alive']]; rd = [x for x in norm_dump(snap) if x['alive']]
